@@ -201,6 +201,7 @@ def C06(F, rep, tier, cx):
     RP.K10(F, rep, cx.R, cx.FL)
     RP.T2(F, rep, cx.R, cx.FL, ws)
     RP.P6(F, rep, cx.R, cx.FL)   # a rewind into released data makes the decoder spin on an empty, 'good' stream
+    RF.R2(F, rep, cx.FL)         # ... and so does a read() that returns short without reporting the end
 
 
 def C07(F, rep, tier, cx):
@@ -213,6 +214,8 @@ def C07(F, rep, tier, cx):
     RF.K11(F, rep, cx.R, cx.FL)
     RF.K12(F, rep, cx.R, cx.FL)
     RP.K2u(F, rep, cx.R, ws)
+    RP.T2(F, rep, cx.R, cx.FL, ws)   # whether both sides end up waiting for each other depends on who runs first
+    RF.O1O2(F, rep, cx.FL, [RF.U2Q, RF.Q2U, FILE + '::read', FILE + '::write'], rules=('O1',))   # a use after the hand-over races with the new owner
     RP.Q(F, rep, cx.R, cx.FL)
     rep.obs = [o for o in rep.obs if o['rule'] not in ('Q1', 'Q3')]
     rep.counts.pop('Q1', None)
@@ -231,6 +234,8 @@ def C08(F, rep, tier, cx):
     RP.K5(F, rep, cx.R, cx.FL, ('BLF',), 'library-exception')
     run_layout(F, rep, read_rules=('E6',), extra_classes=(LOGCONT,) if LOGCONT not in object_classes_cached(F) else ())
     RF.E5(F, rep, cx.R)
+    RF.O3(F, rep, cx.R, cx.FL)   # a file cut inside its header still gets workers that declare the end (open|workers-started); close() returns
+    rep.obs = [o for o in rep.obs if o['rule'] != 'O3' or o['key'].startswith('O3|open|workers') or o['key'].startswith('O3|join')]
 
 
 def C09(F, rep, tier, cx):
@@ -280,6 +285,7 @@ def C12(F, rep, tier, cx):
     """P1 finite capacities configured; P2 every insertion preceded by a back-pressure wait; P3 dropOldData on every committing path"""
     RP.P(F, rep, cx.R, cx.FL, cx.ws())
     RP.P6(F, rep, cx.R, cx.FL)
+    RP.P8(F, rep, cx.R, cx.ws())
     RF.K13(F, rep, cx.R)
     RF.P4(F, rep, cx.FL)
     RF.P5(F, rep, cx.FL)
